@@ -162,6 +162,15 @@ def rule_source(ctx, cd):
                                     break
         return out
 
+    def loopvar_norm(t, s):
+        """replace the loop variables of a template by <each:last attribute of what they iterate> (names are not significant)"""
+        for f in t.ast.find_all(N.For):
+            it = xs(f.iter)
+            tag = "<each:" + re.sub(r"\(.*$", "", it).split(".")[-1].strip("() ") + ">"
+            for x in ([f.target] if isinstance(f.target, N.Name) else list(f.target.find_all(N.Name))):
+                s = re.sub(rf"(?<![\w.]){re.escape(x.name)}(?![\w])", tag, s)
+        return s
+
     def root_norm(s):
         return re.sub(r"\b(composite_type|type|t|T)\b", "<T>", s)
 
@@ -195,7 +204,9 @@ def rule_source(ctx, cd):
     t = cd.ts.get("c", "definitions.j2")
     g = cd.ts.macro(t, "generate_composite")
     caps = following_expr(t, r"_ARRAY_CAPACITY_\s+$")
-    ok = bool(caps) and all(e == "f.data_type.capacity" for e, _, _ in caps if "ARRAY" not in e) and any(e == "f.data_type.capacity" for e, _, _ in caps)
+    capn = [loopvar_norm(t, e) for e, _, _ in caps]
+    ok = bool(caps) and all(re.fullmatch(r"<each:\w*fields\w*>\.data_type\.capacity", e) for e in capn if "ARRAY" not in e) \
+        and any(re.fullmatch(r"<each:\w*fields\w*>\.data_type\.capacity", e) for e in capn)
     ctx.ob(R, t.rel, "c: <T>_<f>_ARRAY_CAPACITY_ <- f.data_type.capacity", ok, f"{[e for e, _, _ in caps]}"[:120])
     cnt = following_expr(t, r"_UNION_OPTION_COUNT_ $")
     ok = bool(cnt) and cnt[0][0] == "(t.fields | length)"
@@ -204,7 +215,7 @@ def rule_source(ctx, cd):
     for lang, fname in (("c", "definitions.j2"), ("cpp", "_composite_type.j2")):
         t = cd.ts.get(lang, fname)
         consts = [xs(f) for f in t.ast.find_all(N.Filter) if f.name == "constant_value"]
-        ok = consts and all(c == "(constant | constant_value)" for c in consts)
+        ok = consts and all(loopvar_norm(t, c) == "(<each:constants> | constant_value)" for c in consts)
         ctx.ob(R, t.rel, f"{lang}: constants rendered through constant | constant_value", bool(ok), f"{consts}")
         loops = [f for f in t.ast.find_all(N.For) if xs(f.iter).endswith(".constants")]
         ok = bool(loops) and all(l.test is None for l in loops)
@@ -214,8 +225,9 @@ def rule_source(ctx, cd):
     loops = [f for f in m.find_all(N.For) if xs(f.iter) == "type.constants"]
     ok = len(loops) == 1 and loops[0].test is None
     ctx.ob(R, t.rel, "py: every constant is exported (unfiltered loop)", ok, "")
-    srcs = {xs(g2) for g2 in loops[0].find_all(N.Getattr) if xs(g2).startswith("c.value")} if loops else set()
-    ok = srcs >= {"c.value.native_value", "c.value.native_value.numerator", "c.value.native_value.denominator"} and any("as_native_integer" in xs(c) for c in loops[0].find_all(N.Call))
+    srcs = {loopvar_norm(t, xs(g2)) for g2 in loops[0].find_all(N.Getattr) if loopvar_norm(t, xs(g2)).startswith("<each:constants>.value")} if loops else set()
+    ok = srcs >= {"<each:constants>.value.native_value", "<each:constants>.value.native_value.numerator", "<each:constants>.value.native_value.denominator"} \
+        and any("as_native_integer" in xs(c) for c in loops[0].find_all(N.Call))
     ctx.ob(R, t.rel, "py: constants come from c.value (bool: native_value, int: as_native_integer(), float: exact numerator/denominator)", ok, f"{sorted(srcs)}")
 
 
